@@ -108,6 +108,13 @@ def r1_per_step_extraction(ctx):
             has_merge = any(isinstance(c, ast.Call) and any(k in call_name(c) for k in ("merge", "concat", "combine")) for b in bodies for c in ast.walk(b))
             ok = acc in used and has_merge
             ctx.check(ok, RUN + "#merge-later", "later steps: merge(accumulated, step result)" if ok else f"later steps overwrite the accumulated slices: {norm(s)[:100]}", where=f, node=s)
+            # the combinator aligns by the slices' OWN labels: no option that overrides the labels / values of later
+            # slices by those of the first (join / compat = "override", "left", "right", "inner" drop or relabel data)
+            for b in bodies:
+                for c in ast.walk(b):
+                    if isinstance(c, ast.Call) and any(k in call_name(c) for k in ("merge", "concat", "combine")):
+                        badk = [(k.arg, k.value.value) for k in c.keywords if k.arg in ("join", "compat", "combine_attrs", "fill_value") and isinstance(k.value, ast.Constant) and ((k.arg == "join" and k.value.value not in ("outer", "exact")) or (k.arg == "compat" and k.value.value in ("override",)))]
+                        ctx.check(not badk, RUN + "#merge-by-own-labels", "slices are combined by their own labels (outer / exact alignment)" if not badk else f"the per-step slices are combined with {badk[0][0]}={badk[0][1]!r}: the labels (time, wavelength, ...) of later slices are replaced by / restricted to those of the first instead of being kept", where=f, node=c)
 
 
 def _eval_key_test(test: ast.expr, var: str, value: str):
@@ -503,6 +510,16 @@ def r6_debug_observation_only(ctx):
         ctx.check(ok, f.qual + "#snapshot-per-model", "the comparison snapshot is refreshed once per model" if ok else "the snapshot the buckets are compared with is not refreshed after every model (a later model of the group is credited with the changes of an earlier one)", where=f, node=(outside or inside or [f.node])[0])
     elif blocks:
         ctx.fail(f.qual + "#snapshot-per-model", "no per-model reference snapshot found in the debug capture", where=f, node=blocks[0])
+    # "the buckets that THIS model changed": the reference is the snapshot taken after the previous model - also across
+    # readouts (in non-destructive mode the pixels survive the step boundary); an all-zero reference is used only when no
+    # snapshot exists at all
+    for b in blocks:
+        for st_ in walk_ordered(b):
+            v_ = getattr(st_, "value", None) if isinstance(st_, (ast.Assign, ast.AnnAssign)) else None
+            if isinstance(v_, ast.Call) and call_name(v_).split(".")[-1] in ("zeros_like", "zeros", "full_like"):
+                ts = [(norm(expand(f, t)), pol) for t, pol in enclosing_tests(st_, stop=b)]
+                okz = len(ts) == 1 and ts[0][1] and ts[0][0].replace(" ", "") in (f"'last'notin{det}.intermediate", f"'last'notin{det}._intermediate")
+                ctx.check(okz, f.qual + "#zero-reference", "an all-zero reference only when no snapshot exists yet" if okz else f"the all-zero comparison reference is used under {ts}: buckets that survive a step boundary (pixels of a non-destructive readout) are recorded as changed by a model that never touched them", where=f, node=st_)
     for q in ("pyxel.detectors.detector:Detector.to_xarray", "pyxel.data_structure.array:ArrayBase.to_xarray", "pyxel.data_structure.photon:Photon.to_xarray", "pyxel.data_structure.charge:Charge.to_xarray"):
         fn = ctx.func(q)
         bad = []
